@@ -29,6 +29,7 @@ def find(t, pred, out=None):
 def run(chk, tier):
     prog, info = common.program("all")
     common.note_extraction(chk, info, prog)
+    common.vacuity(chk, ['R-WIRE'])
     chk.explanation = ("Only what is in the shape of the code is decided (necessary conditions). Coverage: get_latest_volume searches N elements with the closure "
                        "mapping index -> volume index + k1 and the result mapped back by + k2; k1 = k2 = 1 and N + k1 - 1 = 999, the rotation bound asserted by "
                        "VolumeIndex::new, so directory 999 is examinable and neither 0 nor 1000 is ever named (under the search's index contract). Counting: every "
